@@ -143,9 +143,12 @@ def run(ck: Check):
 
     # bounded-exhaustive enumerations validate the tie (they are not the proof)
     if ck.tier == "quick":
-        plans = [("short", ["--hmax", 10, "--nmax", 5]), ("long", ["--hmax", 32])]
+        plans = [("short", ["--hmax", 10, "--nmax", 5]), ("long", ["--hmax", 32]), ("wide", [])]
     else:
-        plans = [("short", ["--hmax", 13, "--nmax", 6]), ("long", ["--hmax", 40]), ("slice", [])]
+        plans = [("short", ["--hmax", 13, "--nmax", 6]), ("long", ["--hmax", 40]), ("slice", []), ("wide", [])]
+        # `wide --big` (65 535 … 131 073 bytes) exists in the generator but is not registered: the Lean model needs
+        # minutes per request at that size (model-timeout) and the harness arena is too small for the largest
+        # replace / split results; strings of 65 535 … 65 537 bytes run through corpus/wide (C01 run stream) instead
     for kind, extra in plans:
         er = enum(ck, kind, extra)
         res = ck.corr(FAMILY, er, label=f"strs-enum-{kind}", nvh_args=RUN)
